@@ -51,7 +51,11 @@ def _datasets(seed, shard, n):
     for i in range(n):
         kind = rng.random()
         npts = rng.choice([2, 3, 3, 4, 5, 6, 8, 10, 15, 20, 30]) if rng.random() < 0.97 else rng.choice([100, 200])
-        if kind < 0.25:      # spread abscissae
+        if kind < 0.07:      # symmetric about zero
+            k = rng.choice([2, 3, 4, 5, 8])
+            xs = [float(v) for v in range(-k, k + 1)] if rng.random() < 0.6 else [_q(v * 0.75) for v in range(-k, k + 1)]
+            npts = len(xs)
+        elif kind < 0.25:    # spread abscissae
             xs = [_q(rng.uniform(-1000, 1000)) for _ in range(npts)]
         elif kind < 0.45:    # small integers / quarter steps
             xs = [_q(rng.uniform(-8, 8)) for _ in range(npts)]
@@ -130,10 +134,24 @@ def gen_fit(seed, shard, n):
         except Exception as ex:
             ev["oc"] = _oc(ex)
         yield ev
+        # the same data in other units (exact power-of-two rescalings): the correlation coefficient is unchanged by a positive
+        # change of scale of either variable, whatever the unit
+        sy, sx = rng.choice([2.0 ** -20, 2.0 ** -27, 2.0 ** -34, 2.0 ** 10]), rng.choice([1.0, 2.0 ** -20, 2.0 ** 8])
+        ev = dict(base, k="corr2", c=_pad3([]), r2=fx(0), oc2="ok")
+        for key, ock, xx, yy in (("r", "oc", xs, ys), ("r2", "oc2", [v * sx for v in xs], [v * sy for v in ys])):
+            try:
+                rr = _build(rng, xx, yy, "lists").correlation_coeff()
+                ev[key], ev[ock] = (fx(rr) if math.isfinite(rr) else BAD), "ok"
+            except Exception as ex:
+                ev[key], ev[ock] = BAD, _oc(ex)
+        yield ev
         # general fitting
-        which = rng.choice(["x2x1", "x1", "free", "free1"])
+        which = rng.choice(["x2x1", "x1", "free", "free1", "perm", "perm"])
         f_sq, f_id, f_one = (lambda x: x * x), (lambda x: x), (lambda x: 1.0)
-        if which == "x2x1":
+        if which == "perm":
+            # the same three functions in another order (on symmetric abscissae the odd one is orthogonal to the even ones)
+            fs, nb = rng.choice([[f_sq, f_one, f_id], [f_one, f_sq, f_id], [f_id, f_one, f_sq], [f_one, f_id, f_sq]]), 3
+        elif which == "x2x1":
             fs, nb = [f_sq, f_id, f_one], 3
         elif which == "x1":
             fs, nb = [f_id, f_one], 2
@@ -143,7 +161,7 @@ def gen_fit(seed, shard, n):
         else:
             w = rng.choice([0.01, 0.1])
             fs, nb = [lambda x: math.exp(-abs(w * x) / 100.0)], 1
-        ev = dict(base, k="gen", basis=which if which in ("x2x1", "x1") else "free", nb=nb)
+        ev = dict(base, k="gen", basis=which if which in ("x2x1", "x1") else ("perm" if which == "perm" else "free"), nb=nb)
         cols = []
         for j in range(3):
             if j < nb:
